@@ -168,6 +168,8 @@ def _build_resume(gid, p):
             c3 = dict(cfg)
             if path:
                 c3["path"] = path
+            if p.get("every_resume"):
+                c3["every"] = p["every_resume"]      # the resumed run may ask for another cadence
             if not p.get("fault_k2"):
                 res = smcdrv.run_smc(c3, ids=ids, role="resumed", resume_from=source(crashed))
                 res["restore_state"] = pickle.loads(blob)   # projection of the payload as it was written
@@ -222,6 +224,8 @@ def _build_aspire_resume(gid, p):
                 blob = None
             if blob is not None:
                 c3 = dict(cfg); c3["path"] = c2["path"]
+                if p.get("every_resume"):
+                    c3["every"] = p["every_resume"]
                 try:
                     state = pickle.loads(blob)
                 except Exception:
@@ -594,6 +598,8 @@ def corpus_resume(tier, seed, rnd):
             p = {"cfg": c, "fault_k": fk, "route": route}
             if rnd.random() < 0.15:
                 p["fault_k2"] = rnd.choice([1, 2, 3, 5])
+            if rnd.random() < 0.3:
+                p["every_resume"] = rnd.choice([1, 2, 3])
             specs.append(_mk(k, "resume", p))
             k += 1
     return specs
@@ -633,7 +639,10 @@ def corpus_file(tier, seed, rnd):
         if len(ks) > lim:
             ks = sorted(rnd.sample(ks, lim))
         for fk in ks:
-            specs.append(_mk(k, "aspire_resume", {"cfg": c, "fault_k": fk, "fault_on": "like"})); k += 1
+            pp = {"cfg": c, "fault_k": fk, "fault_on": "like"}
+            if rnd.random() < 0.4:
+                pp["every_resume"] = rnd.choice([1, 2, 3])
+            specs.append(_mk(k, "aspire_resume", pp)); k += 1
         kps = sorted(rnd.sample(range(1, nprior + 1), min(nprior, 3 if tier == "quick" else 10)))
         for fk in kps:
             specs.append(_mk(k, "aspire_resume", {"cfg": c, "fault_k": fk, "fault_on": "prior"})); k += 1
@@ -1137,7 +1146,8 @@ CHECKS = {
     "C10": dict(corpus=lambda t, s, r: corpus_general(t, s, r) + corpus_calls(t, s, r), e1=[e1_smcrun],
                 extra=lambda v, t, s: __import__("e3_initialdraw").replay(v, t, s, "C10")),
     "C11": dict(corpus=corpus_resume, e1=[e1_smcrun]),
-    "C12": dict(corpus=corpus_file, e1=[e1_smcrun], extra=e3_blob),
+    "C12": dict(corpus=lambda t, s, r: corpus_file(t, s, r) + [dict(x, id="r" + x["id"]) for x in corpus_resume(t, s, r)][: (150 if t == "quick" else 3000)],
+                e1=[e1_smcrun], extra=e3_blob),
     "C17": dict(corpus=lambda t, s, r: corpus_general(t, s, r) + corpus_calls(t, s, r), e1=[e1_smcrun],
                 extra=lambda v, t, s: __import__("e3_initialdraw").replay(v, t, s, "C17")),
     "C20": dict(corpus=corpus_c20, e1=[], extra=e3_routing),
